@@ -27,20 +27,24 @@ def rule_empty_reduce(model: Model, fshort: str):
     """max()/min() over a list built as [c]*(d-1) needs a dominating guard excluding d = 1 (domain: d >= 1)."""
     f = model.func(fshort)
     obs = []
+    orders = rules.order_names(f.node)
     short_lists = {}
     for n in ast.walk(f.node):
         if isinstance(n, ast.Assign) and isinstance(n.targets[0], ast.Name) and isinstance(n.value, ast.BinOp) and isinstance(n.value.op, ast.Mult):
             for a, b in ((n.value.left, n.value.right), (n.value.right, n.value.left)):
-                if isinstance(a, ast.List) and norm(b).replace(" ", "") in ("(d-1)", "d-1"):
+                if isinstance(a, ast.List) and rules.is_order_minus_one(b, orders):
                     short_lists[n.targets[0].id] = n
     guard = None
     for i, s in enumerate(f.node.body):
-        if isinstance(s, ast.If) and norm(s.test).replace(" ", "") in ("d==1", "d<2", "d<=1") and s.body and isinstance(s.body[-1], (ast.Return, ast.Raise)):
-            guard = s
+        if isinstance(s, ast.If) and isinstance(s.test, ast.Compare) and len(s.test.ops) == 1 and rules.is_order(s.test.left, orders) \
+                and isinstance(s.test.comparators[0], ast.Constant) and s.body and isinstance(s.body[-1], (ast.Return, ast.Raise)):
+            op, c = s.test.ops[0], s.test.comparators[0].value
+            if (isinstance(op, ast.Eq) and c == 1) or (isinstance(op, ast.Lt) and c == 2) or (isinstance(op, ast.LtE) and c == 1):
+                guard = s
     for n in ast.walk(f.node):
         if isinstance(n, ast.Call) and isinstance(n.func, ast.Name) and n.func.id in ("max", "min") and len(n.args) == 1 \
                 and isinstance(n.args[0], ast.Name) and n.args[0].id in short_lists:
-            k = f"{fshort}:EMPTY-REDUCE:{norm(n)}"
+            k = f"{fshort}:EMPTY-REDUCE:{n.func.id} over a list of length d-1:{sum(1 for o in obs)}"
             if guard is not None and guard.lineno < n.lineno:
                 obs.append(Ob("EMPTY-REDUCE", k, OK, model.where(f, n), norm(n), f"dominated by `if {norm(guard.test)}: return ...`"))
             else:
@@ -54,12 +58,24 @@ def rule_result_shape(model: Model):
     obs = []
     for fshort, msrc in (("_dmrg.dmrg_matvec_python", "A.M"), ("_dmrg.dmrg_hadamard_python", "z.N")):
         f = model.func(fshort)
-        assigns = {n.targets[0].id: norm(n.value) for n in ast.walk(f.node) if isinstance(n, ast.Assign) and isinstance(n.targets[0], ast.Name)}
+        # the mode sizes of the result cores: the middle entries of the reshape targets that build them must come from `msrc`
+        aliases = {n.targets[0].id for n in ast.walk(f.node) if isinstance(n, ast.Assign) and isinstance(n.targets[0], ast.Name) and norm(n.value) == msrc}
+        other_modes = {n.targets[0].id for n in ast.walk(f.node) if isinstance(n, ast.Assign) and isinstance(n.targets[0], ast.Name)
+                       and isinstance(n.value, ast.Attribute) and n.value.attr in ("N", "M", "R") and norm(n.value) != msrc}
         k = f"{fshort}:RESULT-SHAPE:M"
-        ok = assigns.get("M") == msrc
-        obs.append(Ob("RESULT-SHAPE", k, OK if ok else VIOLATED, model.where(f), f"M = {msrc}",
+        mids = []
+        for n in ast.walk(f.node):
+            if isinstance(n, ast.Assign) and isinstance(n.targets[0], ast.Subscript) and isinstance(n.value, ast.Call) and norm(n.value.func).endswith("reshape") \
+                    and len(n.value.args) == 2 and isinstance(n.value.args[1], ast.List) and len(n.value.args[1].elts) == 3:
+                m = n.value.args[1].elts[1]
+                if isinstance(m, ast.Subscript) and isinstance(m.value, (ast.Name, ast.Attribute)):
+                    mids.append(norm(m.value))
+        ok = bool(mids) and all(x in aliases or x == msrc for x in mids)
+        wrong = sorted({x for x in mids if x in other_modes})
+        obs.append(Ob("RESULT-SHAPE", k, OK if ok else (VIOLATED if wrong else ERROR), model.where(f), f"result modes from {msrc}",
                       "result mode sizes taken from the operator's row modes / first factor" if ok else
-                      f"the mode sizes of the result cores must be {msrc} (found {assigns.get('M')})"))
+                      (f"the result cores are reshaped with mode sizes from {wrong}; they must be {msrc}" if wrong else
+                       f"could not recognise where the result cores take their mode sizes from ({mids})")))
         rets = [n for n in ast.walk(f.node) if isinstance(n, ast.Return) and n.value is not None]
         okr = all(isinstance(r.value, ast.Call) and (model.resolve(f.module, r.value.func) in ("torchtt._tt_base.TT",) or isinstance(r.value, ast.BinOp)) or isinstance(r.value, ast.BinOp)
                   for r in rets)
@@ -113,8 +129,8 @@ def check(model: Model, tier: str):
     obs = []
     for fs in ("_dmrg.dmrg_matvec_python", "_dmrg.dmrg_hadamard_python", "_amen._amen_mm_python"):
         obs += rule_empty_reduce(model, fs)
-    exc = {("_amen._amen_mm_python", "swp"): "read only in the verbose report after a zero-sweep run (nswp = 0)",
-           ("_amen._amen_mm_python", "time_total"): "verbose timing only", ("_amen._amen_mm_python", "tme_sweep"): "verbose timing only"}
+    exc = {("_amen._amen_mm_python", "sig:for:range(nswp)"): "read only in the verbose report after a zero-sweep run (nswp = 0)",
+           ("_amen._amen_mm_python", "sig:=binop | =call:datetime.datetime.now"): "verbose timing only", ("_amen._amen_mm_python", "sig:=binop | =call:datetime.datetime.now"): "verbose timing only"}
     obs += rules.rule_defassign(model, [model.func(a) for a in ANCHORS], exc)
     obs += rule_result_shape(model)
     obs += rule_result_kind(model)
